@@ -202,14 +202,14 @@ PROPS = {
     "C07": P("proof", model_variants=["spec", "impl"], streams=["host"], trusted_base=TB_CORR + ["ICU laws H_ascii and H_keep (Properties_C07.v) are explicit premises of C07_host / C07_fastpath / C07_precheck; they are sampled against the real ICU by the host stream, not proved"]),
     "C08": P("proof", model_variants=["spec", "impl"], streams=["parse", "setters", "histories"],
              trusted_base=TB_CORR + ["idna_ascii_lower (ICU returns ASCII without upper-case letters) is an explicit premise of the C08 theorems"]),
-    "C09": P("exploration", model_variants=["spec", "impl"], streams=["canparse"], trusted_base=TB_CORR),
+    "C09": P("proof", model_variants=["spec", "impl"], streams=["canparse"], trusted_base=TB_CORR),
     "C10": P("proof", ["encodings"], trusted_base=TB_CORR),
     "C11": P("proof", ["ipv4"], trusted_base=TB_CORR),
     "C12": P("proof", ["ipv6"], trusted_base=TB_CORR),
     "C14": P("proof", ["percent"], trusted_base=TB_CORR),
     "C15": P("proof", ["urlenc"], trusted_base=TB_CORR),
     "C16": P("proof", ["usp"], trusted_base=TB_CORR, coq_files=["Properties_C16.v", "Properties_C16_compare.v"]),
-    "C17": P("exploration", ["filepath"], trusted_base=TB_CORR),
+    "C17": P("proof", ["filepath"], trusted_base=TB_CORR),
     "C04": {"level": "exploration", "streams": ["runtime:run_c04"], "trusted_base": TB_CORR,
             "stream_names": ["parse", "setters", "histories", "canparse", "encodings", "ipv4", "ipv6", "percent", "urlenc", "usp", "host", "filepath"]},
     "C18": {"level": "translation_validation", "streams": ["runtime:run_c18"], "trusted_base": TB_CORR,
